@@ -90,6 +90,29 @@ def sparse_deleg_case(rng):
     return c
 
 
+def directed_receiver_cases():
+    """every provided method of the delegation inventory (all receiver kinds) x {its only pattern rejects the argument, its pattern says
+    applies_unmocked()} x {strict, partial}: none of them has a registered real function, so the partial fall-through / the Unmock response
+    must be reported as CannotUnmock (never answered by the default body), the strict unmatched call as NoMatchingCallPatterns"""
+    from .. import layer_d as D
+    out = []
+    for m in [14, 15, 16, 17, 18, 19, 24, 30]:
+        for partial in (False, True):
+            for how in ("reject", "unm"):
+                pat = {"matcher": 0 if how == "reject" else 255, "dbg": 1, "ops": [("dfl",)] if how == "reject" else [("unm",)]}
+                terms = [{"kind": "call", "mid": m, "opener": "each", "pat": pat},
+                         {"kind": "call", "mid": 10, "opener": "each", "pat": {"matcher": 255, "dbg": 2, "ops": [("ret", 2)]}},
+                         {"kind": "call", "mid": 11, "opener": "each", "pat": {"matcher": 255, "dbg": 3, "ops": [("ret", 3)]}},
+                         {"kind": "call", "mid": 23, "opener": "each", "pat": {"matcher": 255, "dbg": 4, "ops": [("ret", 4)]}},
+                         {"kind": "call", "mid": 29, "opener": "each", "pat": {"matcher": 255, "dbg": 5, "ops": [("ret", 5)]}}]
+                evs = [{"base": ("clone", 0)}, {"base": ("call", 1, m, 2)}]
+                if m not in D.CONSUMING:
+                    evs.append({"base": ("drop", 1)})
+                evs.append({"base": ("drop", 0)})
+                out.append({"partial": partial, "terms": terms, "events": evs})
+    return out
+
+
 def engines(tier):
     return [Engine("C07", project=proj_kinds)]
 
@@ -98,7 +121,8 @@ def run(tier, seed):
     return run_coexec("C07", tier, seed, module=MODULE, theorems=THEOREMS, gen_cases=gen_cases,
                       nontrivial=nontrivial, rule=RULE, engines=engines(tier), stats=stats,
                       extra_cov={"exhaustive": True}, extra_obligations=C.inventory_obligation,
-                      parts=[DelegPart("C07", sparse_deleg_case, "correspondence C07 (receiver part): unmentioned / unmatched calls made by default bodies "
+                      parts=[DelegPart("C07", sparse_deleg_case, directed=directed_receiver_cases,
+                                       what= "correspondence C07 (receiver part): unmentioned / unmatched calls made by default bodies "
                                        "through delegation helpers of every receiver kind vs the model", rule=sparse_deleg_case.__doc__)])
 
 
